@@ -374,6 +374,16 @@ def forms_case(draw, tier):
     return case
 
 
+# ============================================================================= known-finding predicates
+def pred_physical_input_has_sub_atol_entries(case):
+    """C04-F4: truncate_hs zeroes real entries below atol=1e-13 in the projected object; a physical input with genuine
+    non-zero entries below that threshold (and is_physicality_required=True, which the result inherits) can be rejected."""
+    if case.get("kind") != "ineq" or not case.get("required"):
+        return False
+    z = np.abs(physical_stacked(case["comp"]))
+    return bool(np.any((z > 1e-15) & (z < 1.01e-13)))
+
+
 # ============================================================================= helpers for the checks
 def _snap(q, typ):
     if typ == "state":
